@@ -126,8 +126,27 @@ func genCsvImport(r *Rng) *Enc {
 	if r.Chance(3) {
 		data = nil
 	}
+	// the less-travelled ways in: by path (on a fresh and on an already used receiver), a reader whose first bytes the
+	// caller has already consumed
+	impVia = 0
+	if csvDir != "" && r.Chance(25) {
+		impVia = r.Range(1, 3)
+	}
 	emitImport(e, data)
+	impVia = 0
 	return e
+}
+
+// impVia: 0 FromCSVReader on a fresh reader; 1 FromCSV(path) on a fresh receiver; 2 FromCSV(path) on a receiver that
+// already holds columns; 3 FromCSVReader on a seekable reader positioned after a prefix the caller consumed
+var impVia int
+
+func usedReceiver() *dataframe.DataFrame {
+	df := dataframe.NewDataFrame()
+	for _, n := range []string{"old", "a", "b", "zz"} {
+		df.Columns[n] = &dataframe.Column[any]{Name: n, Data: []any{"o1", 2, nil, 4.5, "o5", 6, 7}}
+	}
+	return df
 }
 
 // genCsvSmall enumerates short byte strings over the structural alphabet (index -> string).
@@ -159,7 +178,31 @@ func emitImport(e *Enc, data []byte) {
 	noteFields(e, data)
 	e.Tok("IMP", "x"+hex.EncodeToString(data))
 	var df *dataframe.DataFrame
-	st, _ := guard(func() error { var err error; df, err = dataframe.FromCSVReader(bytes.NewReader(data)); return err })
+	st, _ := guard(func() error {
+		var err error
+		switch impVia {
+		case 1, 2:
+			path := csvDir + "/imp.csv"
+			if err := os.WriteFile(path, data, 0o644); err != nil {
+				panic(err)
+			}
+			recv := dataframe.NewDataFrame()
+			if impVia == 2 {
+				recv = usedReceiver()
+			}
+			df, err = recv.FromCSV(path)
+		case 3:
+			prefix := []byte("# preamble the caller reads itself\nx,y\n1,2\n")
+			rd := bytes.NewReader(append(append([]byte{}, prefix...), data...))
+			if _, err := io.CopyN(io.Discard, rd, int64(len(prefix))); err != nil {
+				panic(err)
+			}
+			df, err = dataframe.FromCSVReader(rd)
+		default:
+			df, err = dataframe.FromCSVReader(bytes.NewReader(data))
+		}
+		return err
+	})
 	e.Tok("R", st)
 	if st == "ok" {
 		e.Frame(df)
@@ -273,10 +316,15 @@ func genCsvRoundTrip(r *Rng) *Enc {
 	e.Tok("W", st, "x"+hex.EncodeToString(buf.Bytes()))
 	noteFields(e, buf.Bytes())
 	var back *dataframe.DataFrame
+	usedRecv := r.Bool()
 	st2, _ := guard(func() error {
 		var err error
 		if viaFile {
-			back, err = dataframe.NewDataFrame().FromCSV(csvDir + "/" + rtFile)
+			recv := dataframe.NewDataFrame()
+			if usedRecv {
+				recv = usedReceiver() // a loader frame that already holds another table
+			}
+			back, err = recv.FromCSV(csvDir + "/" + rtFile)
 			return err
 		}
 		back, err = dataframe.FromCSVReader(bytes.NewReader(buf.Bytes()))
